@@ -153,7 +153,8 @@ def run_playback(profile, harness_file, support, tests, log_path, release=False,
                 fh.write(nativeize(t) + "\n")
         files = [hf] + [s for s in support if os.path.basename(s) != os.path.basename(hf)]
         extra = dict(derive.KARATSUBA_APPEND)
-        top = derive.make_copy("replay", files, extra_appends=extra, narrow=(profile == "k8"))
+        top = derive.make_copy("replay", files, extra_appends=extra, narrow=profile in ("k8", "k8k"),
+                               kara_small=(profile == "k8k"))
     finally:
         pass
     res = {}
@@ -250,11 +251,12 @@ def run_profile(prop, tier, profile, hs, jobs, results, tops):
     os.makedirs(LOG_DIR, exist_ok=True)
     log_path = os.path.join(LOG_DIR, "%s-%s-%s.log" % (prop, tier, profile))
     extra = {}
-    if any(h.karatsuba for h in hs) or profile == "k8":
+    if any(h.karatsuba for h in hs) or profile in ("k8", "k8k"):
         extra.update(derive.KARATSUBA_APPEND)
     try:
         top = derive.make_copy("%s-%s" % (prop, profile), files_for(hs, profile),
-                               extra_appends=extra, narrow=(profile == "k8"))
+                               extra_appends=extra, narrow=profile in ("k8", "k8k"),
+                               kara_small=(profile == "k8k"))
     except Exception as e:
         results[profile] = {"error": "derive failed: %r" % (e,), "records": [], "log": log_path}
         return
@@ -408,6 +410,10 @@ def write_evidence(prop, tier, seed, recs, oks, violations, known_hits, inconclu
     if "k8" in profiles:
         assumptions.add("k8 profile: 8-bit-word build derived from the current source by vlib/narrow.py "
                         "(Word=u8, WideWord=u16; width-specific arms replaced, reciprocal() by its definition)")
+    if "k8k" in profiles:
+        assumptions.add("k8k profile: the k8 build with KARATSUBA_MIN_STARTING_LIMBS = 2 and KARATSUBA_MAX_REDUCE_LIMBS = 1 "
+                        "(real values 32 / 24) so that the recursive boxed Karatsuba bodies run at 2..6 limbs; "
+                        "the behaviour at the real thresholds (operands of 32 limbs and more) is outside the bound")
     if "k64r" in profiles:
         assumptions.add("k64r profile: RUSTFLAGS=-C debug-assertions=off and --no-overflow-checks (release semantics)")
     assumptions.add("trusted: rustc/Kani 0.68 MIR->goto translation and std models, CBMC 6.11, CaDiCaL")
